@@ -103,13 +103,13 @@ var props = []*core.Property{
 		technique:  "finite-domain tabulation through constant tables; control-dependence rules",
 		expl:       "decides the decision structure of the plain sniffer for every byte string",
 		notCovered: []string{"truthfulness for every byte string as a whole (utf8.Valid semantics are trusted)"},
-		rules:      []*core.Rule{ruleBOMTable, rulePlainReturns, ruleASCIIClass, ruleTrim, ruleLatin, ruleSnifferMap}}),
+		rules:      []*core.Rule{ruleBOMTable, rulePlainReturns, ruleASCIIClass, ruleTrim, ruleLatin, ruleSnifferMap, ruleRuneError}}),
 	mk(pd{id: "C12", level: "other",
 		levelText:  "Sniffer map roles; the XML decoder has a usable CharsetReader before the first token; every returned label is lower-cased (XML: strings.ToLower; HTML: in-place ASCII lower-casing tabulated over 256 bytes, before any use); BOM dominates the meta prescan; utf-16* -> utf-8; pragma decision table over the prescan state equals WHATWG, per-tag state is reset.",
 		technique:  "typestate (field store before first token call); finite-domain tabulation; dominance rules",
 		expl:       "decides the label plumbing around the x/net tokenizer and encoding/xml",
 		notCovered: []string{"the WHATWG prescan as implemented by x/net/html", "quoting / whitespace variants inside the XML declaration"},
-		rules:      []*core.Rule{ruleSnifferMap, ruleDecoderTypestate, ruleLowerCase, ruleHTMLOrder, ruleParams, ruleReader, ruleLimitSlice}}),
+		rules:      []*core.Rule{ruleSnifferMap, ruleDecoderTypestate, ruleLowerCase, ruleHTMLOrder, rulePragmaValue, ruleParams, ruleReader, ruleLimitSlice}}),
 	mk(pd{id: "C13", level: "other",
 		levelText:  "Line cutting agrees with the JSON truncation table (same order types); both detectors pass their own (header, limit) through it first; NDJSON lines are judged by the parsed length; thresholds tabulated (lines >= 2 and containers >= 1; fields >= 2 and records >= 2); csv reader: FieldsPerRecord untouched, detector's delimiter, EOF ends, any other error rejects.",
 		technique:  "finite-domain tabulation; path-sensitive error typestate; field-store inventory on the csv reader",
@@ -147,9 +147,9 @@ var props = []*core.Property{
 		notCovered: []string{"agreement with real tar writers", "the arithmetic corruption argument itself"},
 		rules:      []*core.Rule{ruleTar}}),
 	mk(pd{id: "C19", level: "other",
-		levelText:  "Marker constants and first-entry list at the walker's call sites; ODF/EPUB nodes are decided by `mimetype`+registered type at offset 30 only; refinement (odt/ott ...) is parent/child; zip children, apk before jar; walker layout: name at 30, size at 18, +49, unbounded PK\\x03\\x04 searches, loop of 4, only recognised steps, accepts only under a marker match.",
+		levelText:  "Marker constants and first-entry list at the walker's call sites; ODF/EPUB nodes are decided by `mimetype`+registered type at offset 30 only; refinement (odt/ott ...) is parent/child; zip children, apk before jar; walker layout: name at 30, size at 18, +49, unbounded PK\\x03\\x04 searches, loop of 4, only recognised steps, accepts only under a marker match; the zip node itself accepts the three PK signatures (tabulated).",
 		technique:  "constant folding at call sites; step whitelist and shape rules on the walker's SSA; tree model",
 		expl:       "decides the constants and the layout of the entry walk",
 		notCovered: []string{"agreement of the header walk with the archive's real entry list"},
-		rules:      []*core.Rule{ruleZipMarkers, ruleZipSignatures, ruleZipWalk, rulePkgState}}),
+		rules:      []*core.Rule{ruleZipMarkers, ruleZipSignatures, ruleZipWalk, ruleZipRoot, rulePkgState}}),
 }
